@@ -162,6 +162,22 @@ func Verif_C12_ChunkedWrite() {
 	vr.Reach("end")
 }
 
+// Verif_C12_ChunkBoundaries: replies whose total length sits on, just below and just above the
+// multiples of the 1024-byte write chunk reach the client complete, once, and are followed by the
+// next reply (concrete contents, so that any way of cutting the reply into writes can be followed).
+func Verif_C12_ChunkBoundaries() {
+	s := verifServer()
+	lengths := []int{1023, 1024, 1025, 1026, 2047, 2048, 2049, 2050, 3072, 3073, 4097, 5000}
+	total := lengths[vr.Choose("reply_len", len(lengths))]
+	v := strings.Repeat("v", total-9) // "$dddd\r\n" + value + "\r\n"
+	verifPreset(s, 0, "k", v)
+	fc := &fakeConn{input: [][]byte{[]byte("*2\r\n$3\r\nGET\r\n$1\r\nk\r\n"), []byte("*1\r\n$4\r\nPING\r\n")}}
+	s.handleConnection(fc)
+	want := "$" + strconv.Itoa(len(v)) + "\r\n" + v + "\r\n" + "+PONG\r\n"
+	vr.Assert(string(fc.written) == want, "C12.chunk_boundaries.reply_complete_then_next_reply")
+	vr.Reach("end")
+}
+
 // Verif_C12_Pipeline: two commands delivered in separate reads get one reply each, in order;
 // an erroring command gets exactly one error reply.
 func Verif_C12_Pipeline() {
@@ -206,4 +222,38 @@ func Verif_C12_Segmentation() {
 		vr.Assert(string(fc.written) == "+PONG\r\n$3\r\nval\r\n", "C12.segmentation.command_split_across_writes")
 	}
 	vr.Reach("end")
+}
+
+// Verif_C12_Stream: a pipeline of four commands (one value with NUL bytes at both ends) is cut
+// into segments at arbitrary byte offsets - one cut in the quick tier, two in the thorough tier -
+// and every command gets its reply, in order, exactly once.
+func Verif_C12_Stream() {
+	s := verifServer()
+	verifPreset(s, 0, "k", "val")
+	nul := "\x00v\x00"
+	stream := "*1\r\n$4\r\nPING\r\n" + "*2\r\n$3\r\nGET\r\n$1\r\nk\r\n" + string(encCmd("SET", "n", nul)) + "*2\r\n$3\r\nGET\r\n$1\r\nn\r\n"
+	c1 := vr.Choose("cut1", len(stream)+1)
+	c2 := len(stream)
+	if vr.Tier() == 1 {
+		c2 = vr.Choose("cut2", len(stream)+1)
+		vr.Assume(c1 <= c2)
+	}
+	var in [][]byte
+	for _, seg := range []string{stream[:c1], stream[c1:c2], stream[c2:]} {
+		if seg != "" {
+			in = append(in, []byte(seg))
+		}
+	}
+	fc := &fakeConn{input: in}
+	s.handleConnection(fc)
+	vr.Assert(string(fc.written) == "+PONG\r\n$3\r\nval\r\n+OK\r\n$3\r\n"+nul+"\r\n", "C12.stream.every_command_answered_once_in_order")
+	vr.Reach("end")
+}
+
+func encCmd(argv ...string) []byte {
+	out := "*" + strconv.Itoa(len(argv)) + "\r\n"
+	for _, a := range argv {
+		out += "$" + strconv.Itoa(len(a)) + "\r\n" + a + "\r\n"
+	}
+	return []byte(out)
 }
